@@ -338,7 +338,11 @@ struct Hist {
         op(s, "add_gen " + gen_str(x, n) + " # api=add_grid_generator");
         guarded([&] { g.add_grid_generator(x); }); break; }
       case 7: { Grid_Generator_System gs = G.gens(n, 3, R.chance(1, 2)); bool rec = R.chance(1, 3);
-        op(s, std::string(rec ? "add_recycled_gens " : "add_gens ") + gens_str(gs, n) + (rec ? " # api=add_recycled_grid_generators" : " # api=add_grid_generators"));
+        // sometimes a generator system of space dimension 0 (legal: smaller dimensions are embedded)
+        bool gs0 = n > 0 && R.chance(1, 6);
+        if (gs0) { Grid_Generator_System z; z.insert(grid_point()); if (R.chance(1, 3)) z.insert(grid_point()); gs = z; }
+        op(s, std::string(rec ? "add_recycled_gens " : "add_gens ") + gens_str(gs, n) + (rec ? " # api=add_recycled_grid_generators" : " # api=add_grid_generators")
+              + (gs0 ? " gsdim=0" : ""));
         guarded([&] { if (rec) g.add_recycled_grid_generators(gs); else g.add_grid_generators(gs); }); break; }
       case 8: case 9: { int t = partner(s); op(s, "inter " + std::to_string(t) + " # api=intersection_assign");
         guarded([&] { slot[s]->intersection_assign(*slot[t]); }); break; }
